@@ -12,7 +12,15 @@
    Sources: language/reference/numeric_semantics.md, language/explanation/scopes_and_name_resolution.md,
    language/reference/strings.md, language/reference/language.md (operator table, exceptions).
    Integer kernels come from PyArith, sequence kernels from PySeq (the same operators C04/C05 bind
-   to the runtime library). *)
+   to the runtime library).
+   Iteration protocols, Option helpers, sets and conversions (GenIter; section "iteration protocols" below):
+     enumerate / zip (reference/language.md builtin functions, reference/imports_and_modules.md "Built-in functions"),
+     tuple unpacking in `for` (tutorials/web_framework.md) and in assignments (how-to/async_programming.md `tx, rx = ...`),
+     dict iteration through `for k in d` / d.keys() / d.values() (Dict methods table; the ORDER is not promised: Dict is
+     a hash map, tutorials/book/08: "set iteration order is not guaranteed" - see `Reorder`), Option.unwrap_or / unwrap
+     (Option methods table, explanation/error_handling.md), is_some / is_none (how-to/error_messages.md), dict.get,
+     set literals / set(iterable) / len / in / not in / contains (tutorials/book/08, stdlib_traits/collection_protocols.md),
+     int(s) / float(x) / str(n) with the documented ValueError texts (reference/language.md builtin exceptions). *)
 EXTENDS Integers, Sequences, FiniteSets, TLC, PyArith, PySeq
 
 \* ================================================================ values
@@ -69,9 +77,19 @@ EmptyScope == <<>>          \* the function with empty domain
 FnOf(P, f) == LET S == {i \in 1..Len(P.fns) : P.fns[i].name = f} IN
               IF S = {} THEN [found |-> FALSE] ELSE [found |-> TRUE, d |-> P.fns[CHOOSE i \in S : TRUE]]
 ElemTy(ty) == IF ty = "list[int]" THEN "int" ELSE IF ty = "list[str]" THEN "str" ELSE "err"
+\* pair types over the scalar types, dict[str,int], set[int] / set[str] (the collection types of the iteration subset)
+ScalarTys == {"int", "str", "bool"}
+TupTy(a, b) == "tuple[" \o a \o "," \o b \o "]"
+IsTup(ty) == \E a, b \in ScalarTys : ty = TupTy(a, b)
+TupElem(ty, i) == LET ab == CHOOSE ab \in ScalarTys \X ScalarTys : ty = TupTy(ab[1], ab[2]) IN ab[i]
+DictTy == "dict[str,int]"
+SetTy(a) == "set[" \o a \o "]"
+ListTy(a) == "list[" \o a \o "]"
 
 RECURSIVE TypeOf(_, _, _)
 RECURSIVE TypeOfData(_, _, _)
+RECURSIVE TypeOfColl(_, _, _)
+RECURSIVE IterElemTy(_, _, _)
 ArgsOK(args, params, sc, P) ==
   Len(args) = Len(params) /\ \A i \in 1..Len(args) : TypeOf(args[i], sc, P) = params[i].ty
 TypeOf(e, sc, P) ==
@@ -92,16 +110,28 @@ TypeOf(e, sc, P) ==
                  ELSE IF a = b /\ a = "str" /\ e.op \in {"==", "!="} THEN "bool"      \* str ordering is outside the model
                  ELSE IF a = b /\ a = "bool" /\ e.op \in {"==", "!="} THEN "bool" ELSE "err")
          ELSE IF e.op \in {"and", "or"} THEN (IF a = "bool" /\ b = "bool" THEN "bool" ELSE "err")
-         ELSE IF e.op \in {"in", "not in"} THEN (IF a = "str" /\ b = "str" THEN "bool" ELSE "err")
+         ELSE IF e.op \in {"in", "not in"} THEN        \* substring, or membership in a list / set / the keys of a dict
+                (IF \/ (a = "str" /\ b = "str") \/ (a \in {"int", "str"} /\ b \in {ListTy(a), SetTy(a)}) \/ (a = "str" /\ b = DictTy)
+                   THEN "bool" ELSE "err")
          ELSE "err"
     [] e.k = "call"  ->
-         IF e.f = "len" THEN (IF Len(e.args) = 1 /\ TypeOf(e.args[1], sc, P) \in {"str", "list[int]", "list[str]"} THEN "int" ELSE "err")
+         IF e.f = "len" THEN (IF Len(e.args) = 1 /\ TypeOf(e.args[1], sc, P) \in {"str", "list[int]", "list[str]", DictTy, SetTy("int"), SetTy("str")}
+                                THEN "int" ELSE "err")
+         ELSE IF e.f \in {"sum", "min", "max"} THEN (IF Len(e.args) = 1 /\ TypeOf(e.args[1], sc, P) = "list[int]" THEN "int" ELSE "err")
+         ELSE IF e.f = "sorted" THEN (IF Len(e.args) = 1 /\ TypeOf(e.args[1], sc, P) \in {"list[int]", "list[str]"} THEN TypeOf(e.args[1], sc, P) ELSE "err")
+         \* conversions (reference/language.md: Str / Int / Float "Convert a value to ..."; only the argument types the examples show)
+         ELSE IF e.f = "int" THEN (IF Len(e.args) = 1 /\ TypeOf(e.args[1], sc, P) = "str" THEN "int" ELSE "err")
+         ELSE IF e.f = "float" THEN (IF Len(e.args) = 1 /\ TypeOf(e.args[1], sc, P) \in {"str", "int"} THEN "float" ELSE "err")
+         ELSE IF e.f = "str" THEN (IF Len(e.args) = 1 /\ TypeOf(e.args[1], sc, P) = "int" THEN "str" ELSE "err")
+         ELSE IF e.f = "set" THEN (IF Len(e.args) = 1 /\ TypeOf(e.args[1], sc, P) \in {"list[int]", "list[str]"}
+                                     THEN SetTy(ElemTy(TypeOf(e.args[1], sc, P))) ELSE "err")
          ELSE IF e.f = "abs" THEN (IF Len(e.args) = 1 /\ TypeOf(e.args[1], sc, P) \in {"int", "float"}
                                      THEN TypeOf(e.args[1], sc, P) ELSE "err")
          ELSE LET fd == FnOf(P, e.f) IN
               IF fd.found /\ ArgsOK(e.args, fd.d.params, sc, P) THEN fd.d.ret ELSE "err"
     [] e.k = "index" -> LET o == TypeOf(e.obj, sc, P) IN
-                        IF TypeOf(e.idx, sc, P) # "int" THEN "err"
+                        IF o = DictTy THEN (IF TypeOf(e.idx, sc, P) = "str" THEN "int" ELSE "err")
+                        ELSE IF TypeOf(e.idx, sc, P) # "int" THEN "err"
                         ELSE IF o = "str" THEN "str" ELSE ElemTy(o)
     [] e.k = "slice" -> LET o == TypeOf(e.obj, sc, P) IN
                         IF (\A b \in {e.start, e.end, e.step} : b = <<>> \/ TypeOf(b[1], sc, P) = "int")
@@ -184,6 +214,52 @@ TypeOfData(e, sc, P) ==
                                    IF a.guard # <<>> /\ TypeOf(a.guard[1], sc2, P) # "bool" THEN "err" ELSE TypeOf(a.e, sc2, P)
                   t1 == armTy(e.arms[1]) IN
               IF t1 \notin {"err", "none"} /\ (\A i \in 1..Len(e.arms) : armTy(e.arms[i]) = t1) THEN t1 ELSE "err"
+    [] OTHER -> TypeOfColl(e, sc, P)
+
+\* ---------------------------------------------------------------- iteration protocols, tuples, dicts, sets, Option helpers (static rules)
+\* element type of an expression in an ITERATION position (`for v in <it>`, comprehension source). enumerate / zip are typed only
+\* here: the documentation calls them iterators ("Iterator with indices", "Pair up two iterators"), not lists.
+IterElemTy(it, sc, P) ==
+  IF (it.k = "call" /\ it.f = "range") \/ it.k = "range"
+    THEN (IF Len(it.args) \in 1..3 /\ \A i \in 1..Len(it.args) : TypeOf(it.args[i], sc, P) = "int" THEN "int" ELSE "err")
+  ELSE IF it.k = "enumerate" THEN LET t == IterElemTy(it.e, sc, P) IN IF t \in ScalarTys THEN TupTy("int", t) ELSE "err"
+  ELSE IF it.k = "zip" THEN LET a == IterElemTy(it.a, sc, P)  b == IterElemTy(it.b, sc, P) IN
+                            IF a \in ScalarTys /\ b \in ScalarTys THEN TupTy(a, b) ELSE "err"
+  ELSE LET ty == TypeOf(it, sc, P) IN
+       CASE ty = "str" -> "str" [] ty = DictTy -> "str"           \* a dict iterates over its keys
+         [] ty \in {"list[int]", "set[int]"} -> "int" [] ty \in {"list[str]", "set[str]"} -> "str" [] OTHER -> "err"
+TypeOfColl(e, sc, P) ==
+  CASE e.k = "tuple" -> IF Len(e.items) = 2 /\ TypeOf(e.items[1], sc, P) \in ScalarTys /\ TypeOf(e.items[2], sc, P) \in ScalarTys
+                          THEN TupTy(TypeOf(e.items[1], sc, P), TypeOf(e.items[2], sc, P)) ELSE "err"
+    [] e.k = "tfield" -> LET o == TypeOf(e.obj, sc, P) IN IF IsTup(o) /\ e.idx \in {0, 1} THEN TupElem(o, e.idx + 1) ELSE "err"
+    [] e.k = "dict" -> IF e.keys # <<>> /\ (\A i \in 1..Len(e.keys) : TypeOf(e.keys[i], sc, P) = "str" /\ TypeOf(e.vals[i], sc, P) = "int")
+                         THEN DictTy ELSE "err"
+    [] e.k = "setlit" -> IF e.items = <<>> THEN "err"
+                         ELSE LET t1 == TypeOf(e.items[1], sc, P) IN
+                              IF t1 \in {"int", "str"} /\ \A i \in 1..Len(e.items) : TypeOf(e.items[i], sc, P) = t1 THEN SetTy(t1) ELSE "err"
+    [] e.k = "listcomp" ->
+         LET vt == IterElemTy(e.iter, sc, P)
+             sc2 == Bind(Append(sc, EmptyScope), e.var, vt, FALSE) IN
+         IF vt = "err" \/ (e.cond # <<>> /\ TypeOf(e.cond[1], sc2, P) # "bool") THEN "err"
+         ELSE LET t == TypeOf(e.elem, sc2, P) IN IF t \in {"int", "str"} THEN ListTy(t) ELSE "err"
+    [] e.k = "fstr" -> IF \A i \in 1..Len(e.parts) : e.parts[i].pk = "s" \/ TypeOf(e.parts[i].e, sc, P) \in {"int", "bool", "str"} THEN "str" ELSE "err"
+    [] e.k = "mcall" ->
+         LET o == TypeOf(e.recv, sc, P)
+             at(i) == TypeOf(e.args[i], sc, P)  n == Len(e.args) IN
+         CASE o = DictTy /\ e.name = "keys" /\ n = 0 -> "list[str]"          \* "Return an iterable/list of keys"
+           [] o = DictTy /\ e.name = "values" /\ n = 0 -> "list[int]"
+           [] o = DictTy /\ e.name = "get" /\ n = 1 -> IF at(1) = "str" THEN "opt[int]" ELSE "err"
+           [] o = DictTy /\ e.name = "insert" /\ n = 2 -> IF at(1) = "str" /\ at(2) = "int" /\ e.recv.k = "ident" /\ Lookup(sc, e.recv.name).mut THEN "none" ELSE "err"
+           [] o = "opt[int]" /\ e.name = "unwrap_or" /\ n = 1 -> IF at(1) = "int" THEN "int" ELSE "err"
+           [] o = "opt[int]" /\ e.name = "unwrap" /\ n = 0 -> "int"
+           [] o = "opt[int]" /\ e.name \in {"is_some", "is_none"} /\ n = 0 -> "bool"
+           [] o = "res[int,str]" /\ e.name = "unwrap" /\ n = 0 -> "int"
+           [] o \in {SetTy("int"), SetTy("str"), "list[int]", "list[str]"} /\ e.name = "contains" /\ n = 1 ->
+                IF (at(1) = "int" /\ o \in {SetTy("int"), "list[int]"}) \/ (at(1) = "str" /\ o \in {SetTy("str"), "list[str]"}) THEN "bool" ELSE "err"
+           [] o \in {"list[int]", "list[str]"} /\ e.name = "append" /\ n = 1 ->
+                IF at(1) = ElemTy(o) /\ e.recv.k = "ident" /\ Lookup(sc, e.recv.name).mut THEN "none" ELSE "err"
+           [] o = "str" /\ e.name \in {"upper", "lower", "strip"} /\ n = 0 -> "str"
+           [] OTHER -> "err"
     [] OTHER -> "err"
 
 \* statements: returns [ok, sc]; ctx = [loop, ret] (inside a loop? declared return type)
@@ -217,11 +293,34 @@ CheckStmt(s, sc, ctx, P) ==
     [] s.k = "while" ->
          [ok |-> TypeOf(s.cond, sc, P) = "bool" /\ CheckBlock(s.body, Append(sc, EmptyScope), [ctx EXCEPT !.loop = TRUE], P), sc |-> sc]
     [] s.k = "for" ->
-         LET it == s.iter
-             vty == IF it.k = "call" /\ it.f = "range"
-                      THEN (IF Len(it.args) \in 1..3 /\ \A i \in 1..Len(it.args) : TypeOf(it.args[i], sc, P) = "int" THEN "int" ELSE "err")
-                    ELSE LET ty == TypeOf(it, sc, P) IN IF ty = "str" THEN "str" ELSE ElemTy(ty) IN
+         LET vty == IterElemTy(s.iter, sc, P) IN
          [ok |-> vty # "err" /\ CheckBlock(s.body, Bind(Append(sc, EmptyScope), s.var, vty, FALSE), [ctx EXCEPT !.loop = TRUE], P),
+          sc |-> sc]
+    [] s.k = "forun" ->         \* for a, b in <iterable of pairs>: both names are bound in the loop scope
+         LET vty == IterElemTy(s.iter, sc, P) IN
+         [ok |-> IsTup(vty) /\ Len(s.vars) = 2 /\ s.vars[1] # s.vars[2]
+                 /\ CheckBlock(s.body, Bind(Bind(Append(sc, EmptyScope), s.vars[1], TupElem(vty, 1), FALSE), s.vars[2], TupElem(vty, 2), FALSE),
+                               [ctx EXCEPT !.loop = TRUE], P),
+          sc |-> sc]
+    [] s.k = "unpack" ->        \* a, b = <pair>: two new immutable bindings
+         LET ty == TypeOf(s.e, sc, P) IN
+         IF ~IsTup(ty) \/ Len(s.names) # 2 \/ s.names[1] = s.names[2] \/ Lookup(sc, s.names[1]).found \/ Lookup(sc, s.names[2]).found
+           THEN [ok |-> FALSE, sc |-> sc]
+         ELSE [ok |-> TRUE, sc |-> Bind(Bind(sc, s.names[1], TupElem(ty, 1), FALSE), s.names[2], TupElem(ty, 2), FALSE)]
+    [] s.k = "matchs" ->        \* statement-level match: patterns typed against the subject, exhaustive, every arm body a block
+         LET ty == TypeOf(s.subj, sc, P) IN
+         [ok |-> /\ ty # "err" /\ s.arms # <<>> /\ Exhaustive(s.arms, ty, P)
+                 /\ \A i \in 1..Len(s.arms) :
+                      LET pt == PatTy(s.arms[i].pat, ty, P)
+                          sc2 == BindPats(Append(sc, EmptyScope), pt.binds) IN
+                      pt.ok /\ (s.arms[i].guard = <<>> \/ TypeOf(s.arms[i].guard[1], sc2, P) = "bool") /\ CheckBlock(s.arms[i].body, sc2, ctx, P),
+          sc |-> sc]
+    [] s.k = "setidx" ->        \* xs[i] = e / d[k] = e (and the compound forms) on a mutable variable
+         LET r == Lookup(sc, s.name)
+             vt == TypeOf(IF s.op = "" THEN s.e
+                          ELSE [k |-> "bin", op |-> s.op, l |-> [k |-> "index", obj |-> [k |-> "ident", name |-> s.name], idx |-> s.idx], r |-> s.e], sc, P) IN
+         [ok |-> r.found /\ r.mut /\ \/ (r.ty \in {"list[int]", "list[str]"} /\ TypeOf(s.idx, sc, P) = "int" /\ vt = ElemTy(r.ty))
+                                      \/ (r.ty = DictTy /\ TypeOf(s.idx, sc, P) = "str" /\ vt = "int"),
           sc |-> sc]
     [] OTHER -> [ok |-> FALSE, sc |-> sc]
 CheckBlock(ss, sc, ctx, P) ==
@@ -270,7 +369,7 @@ Arith(op, a, b) ==
 RECURSIVE IPow(_, _)
 IPow(b, n) == IF n = 0 THEN 1 ELSE b * IPow(b, n - 1)
 \* the scalars of the modelled alphabet in code point order (lib/render.py SCALAR)
-CodeOrder == <<"sp", "cm", "da", "0", "1", "2", "3", "4", "5", "6", "7", "8", "9", "A", "B", "C", "D", "S",
+CodeOrder == <<"sp", "cm", "da", "dt", "0", "1", "2", "3", "4", "5", "6", "7", "8", "9", "A", "B", "C", "D", "S",
                "a", "b", "c", "d", "e", "f", "l", "r", "s", "t", "u", "E2", "f2", "e2", "u3", "v3", "t4", "s4">>
 Rank(c) == CHOOSE i \in 1..Len(CodeOrder) : CodeOrder[i] = c
 RECURSIVE StrLt(_, _)
@@ -330,10 +429,60 @@ FlatText(sv) == IF sv = <<>> THEN "" ELSE sv[1] \o FlatText(Tail(sv))      \* on
 ErrKey(k) == "KeyError: '" \o (IF k.t = "int" THEN ToString(k.iv) ELSE FlatText(k.sv)) \o "' not found in dict"
 \* insertion sort (sorted())
 RECURSIVE SortInts(_)
-InsertInt(x, ys) == LET n == Cardinality({i \in 1..Len(ys) : ys[i].iv <= x.iv}) IN SubSeq(ys, 1, n) \o <<x>> \o SubSeq(ys, n + 1, Len(ys))
+VLe(a, b) == IF a.t = "int" THEN a.iv <= b.iv ELSE a.sv = b.sv \/ StrLt(a.sv, b.sv)        \* ints by value, strs by code point
+InsertInt(x, ys) == LET n == Cardinality({i \in 1..Len(ys) : VLe(ys[i], x)}) IN SubSeq(ys, 1, n) \o <<x>> \o SubSeq(ys, n + 1, Len(ys))
 SortInts(xs) == IF xs = <<>> THEN <<>> ELSE InsertInt(xs[1], SortInts(Tail(xs)))
 RECURSIVE SumInts(_)
 SumInts(xs) == IF xs = <<>> THEN 0 ELSE xs[1].iv + SumInts(Tail(xs))
+\* ---- iteration protocols, sets, conversions (value level)
+SetV(xs) == [t |-> "set", xs |-> xs]                   \* distinct elements; the sequence order is NOT observable (see Reorder)
+RECURSIVE Dedup(_, _)
+Dedup(xs, acc) == IF xs = <<>> THEN acc
+                  ELSE Dedup(Tail(xs), IF \E i \in 1..Len(acc) : acc[i] = xs[1] THEN acc ELSE Append(acc, xs[1]))
+\* The documentation does not promise an iteration order for dicts and sets (hash collections; tutorials/book/08: "set iteration
+\* order is not guaranteed"). The order a program meets is the parameter P.ord; generators only emit programs whose behaviour is the
+\* same under every order they try (GenIter: invariant OrderFree), so no expected output depends on it.
+RECURSIVE Reverse(_)
+Reverse(xs) == IF xs = <<>> THEN <<>> ELSE Append(Reverse(Tail(xs)), xs[1])
+Reorder(xs, P) == IF xs = <<>> THEN xs ELSE CASE P.ord = "rev" -> Reverse(xs) [] P.ord = "rot" -> Append(Tail(xs), xs[1]) [] OTHER -> xs
+\* the items a value yields when iterated: a str its Unicode scalars, a list its elements, a dict its keys, a set its elements
+IterItems(v, P) == CASE v.t = "str" -> [i \in 1..Len(v.sv) |-> StrV(<<v.sv[i]>>)]
+                     [] v.t = "dict" -> Reorder(v.ks, P) [] v.t = "set" -> Reorder(v.xs, P) [] OTHER -> v.xs
+\* enumerate: (index, item) with indices from 0 ("Iterator with indices"; tutorials/web_framework.md uses the index with pop(i));
+\* zip: "Pair up two iterators" element-wise: a pair needs an item of each, so the result has the length of the shorter one
+EnumItems(xs) == [i \in 1..Len(xs) |-> TupleV(<<IntV(i - 1), xs[i]>>)]
+ZipItems(xs, ys) == [i \in 1..(IF Len(xs) < Len(ys) THEN Len(xs) ELSE Len(ys)) |-> TupleV(<<xs[i], ys[i]>>)]
+\* text of an ASCII scalar sequence (error messages); ids of ASCII scalars are the characters except the four named ones
+CharOf(c) == CASE c = "da" -> "-" [] c = "sp" -> " " [] c = "cm" -> "," [] c = "dt" -> "." [] OTHER -> c
+RECURSIVE TextOf(_)
+TextOf(sv) == IF sv = <<>> THEN "" ELSE CharOf(sv[1]) \o TextOf(Tail(sv))
+Digits == {"0", "1", "2", "3", "4", "5", "6", "7", "8", "9"}
+DigitVal(c) == CHOOSE d \in 0..9 : Digit(d) = c
+RECURSIVE NatOf(_, _)
+NatOf(sv, acc) == IF sv = <<>> THEN acc ELSE NatOf(Tail(sv), acc * 10 + DigitVal(sv[1]))
+AllDigits(sv) == sv # <<>> /\ \A i \in 1..Len(sv) : sv[i] \in Digits
+\* int(s): an optional minus sign and decimal digits (the forms the documentation shows: int("42"), int("abc") fails); other
+\* spellings Python accepts (surrounding blanks, "+", "_") are not documented for Incan and never generated
+ErrConv(sv, ty) == "ValueError: cannot convert '" \o TextOf(sv) \o "' to " \o ty
+ParseInt(sv) == LET neg == sv # <<>> /\ sv[1] = "da"
+                    ds == IF neg THEN Tail(sv) ELSE sv IN
+                IF AllDigits(ds) THEN Ok(IntV(IF neg THEN -NatOf(ds, 0) ELSE NatOf(ds, 0))) ELSE Fail(ErrConv(sv, "int"))
+\* float(s): [-]digits[.digits]; the value is exact in the dyadic model only when 10^k divides out to a power of two
+RECURSIVE Pow5(_)
+Pow5(n) == IF n = 0 THEN 1 ELSE 5 * Pow5(n - 1)
+ParseFloat(sv) == LET neg == sv # <<>> /\ sv[1] = "da"
+                      ds == IF neg THEN Tail(sv) ELSE sv
+                      dots == {i \in 1..Len(ds) : ds[i] = "dt"}
+                      dot == IF dots = {} THEN 0 ELSE CHOOSE i \in dots : TRUE
+                      ip == IF dot = 0 THEN ds ELSE SubSeq(ds, 1, dot - 1)
+                      fp == IF dot = 0 THEN <<>> ELSE SubSeq(ds, dot + 1, Len(ds))
+                      k == Len(fp)
+                      n == NatOf(ip \o fp, 0) IN
+                  IF Cardinality(dots) > 1 \/ ~AllDigits(ip) \/ (dot # 0 /\ ~AllDigits(fp)) THEN Fail(ErrConv(sv, "float"))
+                  ELSE IF n % Pow5(k) # 0 THEN Fail(Inexact)
+                  ELSE Ok(NormF((IF neg THEN -1 ELSE 1) * (n \div Pow5(k)), k))
+\* unwrap() on None / Err(..) "panics" (explanation/error_handling.md); the message is not documented
+PanicUnwrap == "PANIC (message not specified): unwrap() on None / Err"
 \* machine state: [env, out, sig, err, ret, fuel]; sig in {"n", "brk", "cont", "ret", "err"}
 VLookupIdx(env, x) == LET S == {j \in 1..Len(env) : x \in DOMAIN env[j]} IN CHOOSE i \in S : \A j \in S : j <= i
 RECURSIVE EvalE(_, _, _)
@@ -374,7 +523,7 @@ EvalE(e, st, P) ==
               ELSE IF e.op \in CmpOps THEN R(TRUE, BoolV(Compare(e.op, a.v, b.v)), "", b.st)
               ELSE IF e.op \in {"in", "not in"} THEN
                      LET isin == CASE b.v.t = "str" -> IsSubSeq(a.v.sv, b.v.sv)
-                                   [] b.v.t = "list" -> \E i \in 1..Len(b.v.xs) : b.v.xs[i] = a.v
+                                   [] b.v.t \in {"list", "set"} -> \E i \in 1..Len(b.v.xs) : b.v.xs[i] = a.v
                                    [] b.v.t = "dict" -> KeyIdx(b.v, a.v) # 0 IN
                      R(TRUE, BoolV(IF e.op = "in" THEN isin ELSE ~isin), "", b.st)
               ELSE IF e.op = "+" /\ a.v.t = "str" THEN R(TRUE, StrV(a.v.sv \o b.v.sv), "", b.st)
@@ -422,6 +571,14 @@ EvalE(e, st, P) ==
               ELSE IF e.f \in {"min", "max"} THEN
                      (IF av[1].xs = <<>> THEN R(FALSE, NoneVal, "UNSPECIFIED: min / max of an empty list", as.st)
                       ELSE LET srt == SortInts(av[1].xs) IN R(TRUE, IF e.f = "min" THEN srt[1] ELSE srt[Len(srt)], "", as.st))
+              ELSE IF e.f = "range" THEN        \* range(...) in an iteration position other than a `for` header (enumerate / zip operand)
+                     LET r == Range(IF Len(av) = 1 THEN 0 ELSE av[1].iv, IF Len(av) = 1 THEN av[1].iv ELSE av[2].iv, IF Len(av) = 3 THEN av[3].iv ELSE 1) IN
+                     IF r.err # "" THEN R(FALSE, NoneVal, r.err, as.st) ELSE R(TRUE, ListV([i \in 1..Len(r.val) |-> IntV(r.val[i])]), "", as.st)
+              ELSE IF e.f = "int" THEN LET r == ParseInt(av[1].sv) IN R(r.ok, r.v, r.err, as.st)
+              ELSE IF e.f = "float" THEN (IF av[1].t = "int" THEN R(TRUE, FloatOfInt(av[1].iv), "", as.st)
+                                          ELSE LET r == ParseFloat(av[1].sv) IN R(r.ok, r.v, r.err, as.st))
+              ELSE IF e.f = "str" THEN R(TRUE, StrV(IntText(av[1].iv)), "", as.st)
+              ELSE IF e.f = "set" THEN R(TRUE, SetV(Dedup(av[1].xs, <<>>)), "", as.st)
               ELSE IF e.f = "abs" THEN R(TRUE, IF av[1].t = "int" THEN IntV(Abs(av[1].iv)) ELSE NormF(Abs(av[1].fn), av[1].fd), "", as.st)
               ELSE LET f == FnOf(P, e.f).d IN
                    IF as.st.fuel = 0 THEN R(FALSE, NoneVal, Fuel, as.st)
@@ -563,6 +720,19 @@ EvalColl(e, st, P) ==
                           (IF i \notin 1..Len(rv.xs) \/ j \notin 1..Len(rv.xs) THEN R(FALSE, NoneVal, "UNSPECIFIED: swap out of range", as.st)
                            ELSE R(TRUE, NoneVal, "", SetVar(as.st, e.recv.name, ListV([rv.xs EXCEPT ![i] = rv.xs[j], ![j] = rv.xs[i]]))))
                      [] rv.t = "dict" /\ m = "insert" -> R(TRUE, NoneVal, "", SetVar(as.st, e.recv.name, DictPut(rv, av[1], av[2])))
+                     \* keys() / values(): the keys / values in the (unspecified) iteration order of the dict, the same order for both
+                     [] rv.t = "dict" /\ m = "keys" -> R(TRUE, ListV(Reorder(rv.ks, P)), "", as.st)
+                     [] rv.t = "dict" /\ m = "values" -> R(TRUE, ListV(Reorder(rv.vs, P)), "", as.st)
+                     [] rv.t = "dict" /\ m = "get" -> LET j == KeyIdx(rv, av[1]) IN
+                                                      R(TRUE, IF j = 0 THEN [t |-> "nonev"] ELSE [t |-> "some", pv |-> rv.vs[j]], "", as.st)
+                     [] rv.t = "set" /\ m = "contains" -> R(TRUE, BoolV(\E i \in 1..Len(rv.xs) : rv.xs[i] = av[1]), "", as.st)
+                     \* Option helpers: the receiver, then the argument (unwrap_or's default is an ordinary argument: always evaluated;
+                     \* how-to/error_handling_recipes.md: "If computing the default is expensive, prefer unwrap_or_else")
+                     [] rv.t \in {"some", "nonev"} /\ m = "unwrap_or" -> R(TRUE, IF rv.t = "some" THEN rv.pv ELSE av[1], "", as.st)
+                     [] rv.t \in {"some", "nonev"} /\ m = "unwrap" -> IF rv.t = "some" THEN R(TRUE, rv.pv, "", as.st) ELSE R(FALSE, NoneVal, PanicUnwrap, as.st)
+                     [] rv.t \in {"okv", "errv"} /\ m = "unwrap" -> IF rv.t = "okv" THEN R(TRUE, rv.pv, "", as.st) ELSE R(FALSE, NoneVal, PanicUnwrap, as.st)
+                     [] rv.t \in {"some", "nonev"} /\ m = "is_some" -> R(TRUE, BoolV(rv.t = "some"), "", as.st)
+                     [] rv.t \in {"some", "nonev"} /\ m = "is_none" -> R(TRUE, BoolV(rv.t = "nonev"), "", as.st)
                      [] OTHER -> R(FALSE, NoneVal, "UNSPECIFIED: unknown expression kind", as.st)
     [] e.k = "ctord" ->       \* constructor with named arguments (in source order); omitted fields take their declared defaults
          LET as == EvalArgs(e.args, st, P, <<>>) IN
@@ -586,7 +756,7 @@ EvalColl(e, st, P) ==
          LET it == EvalE(e.iter, st, P) IN
          IF ~it.ok THEN it
          ELSE LET n == Len(it.st.env)
-                  items == IF it.v.t = "str" THEN [i \in 1..Len(it.v.sv) |-> StrV(<<it.v.sv[i]>>)] ELSE it.v.xs
+                  items == IterItems(it.v, P)
                   RECURSIVE Step(_, _, _)
                   Step(i, cur, acc) ==
                     IF i > Len(items) THEN R(TRUE, acc, "", cur)
@@ -618,6 +788,13 @@ EvalColl(e, st, P) ==
                   c == IF Len(av) = 3 THEN av[3].iv ELSE 1
                   r == Range(a, b, c) IN
               IF r.err # "" THEN R(FALSE, NoneVal, r.err, as.st) ELSE R(TRUE, ListV([i \in 1..Len(r.val) |-> IntV(r.val[i])]), "", as.st)
+    [] e.k = "enumerate" -> LET a == EvalE(e.e, st, P) IN IF ~a.ok THEN a ELSE R(TRUE, ListV(EnumItems(IterItems(a.v, P))), "", a.st)
+    [] e.k = "zip" ->         \* the arguments left to right, then the pairs
+         LET a == EvalE(e.a, st, P) IN
+         IF ~a.ok THEN a
+         ELSE LET b == EvalE(e.b, a.st, P) IN
+              IF ~b.ok THEN b ELSE R(TRUE, ListV(ZipItems(IterItems(a.v, P), IterItems(b.v, P))), "", b.st)
+    [] e.k = "setlit" -> LET as == EvalArgs(e.items, st, P, <<>>) IN IF ~as.ok THEN as ELSE R(TRUE, SetV(Dedup(as.v.xs, <<>>)), "", as.st)
     [] OTHER -> R(FALSE, NoneVal, "UNSPECIFIED: unknown expression kind", st)
 
 ErrSt(st, r) == IF r.err = "$EARLY-RETURN" THEN [r.st EXCEPT !.sig = "ret", !.ret = r.v]
@@ -703,7 +880,14 @@ ExecStmt(s, st, P) ==
                  ELSE ExecFor(s, [i \in 1..Len(r.val) |-> IntV(r.val[i])], as.st, P)
          ELSE LET r == EvalE(it, st, P) IN
               IF ~r.ok THEN ErrSt(st, r)
-              ELSE ExecFor(s, IF r.v.t = "str" THEN [i \in 1..Len(r.v.sv) |-> StrV(<<r.v.sv[i]>>)] ELSE r.v.xs, r.st, P)
+              ELSE ExecFor(s, IterItems(r.v, P), r.st, P)
+    [] s.k = "forun" ->         \* for a, b in <pairs>: per item, both names are bound to the components
+         LET r == EvalE(s.iter, st, P) IN
+         IF ~r.ok THEN ErrSt(st, r) ELSE ExecFor(s, IterItems(r.v, P), r.st, P)
+    [] s.k = "unpack" ->        \* a, b = e : the right-hand side once, then both bindings
+         LET r == EvalE(s.e, st, P) IN
+         IF ~r.ok THEN ErrSt(st, r)
+         ELSE LET n == Len(r.st.env) IN [r.st EXCEPT !.env[n] = (s.names[1] :> r.v.xs[1]) @@ (s.names[2] :> r.v.xs[2]) @@ @]
     [] OTHER -> [st EXCEPT !.sig = "err", !.err = "UNSPECIFIED: unknown statement kind"]
 ExecWhile(s, st, P) ==
   IF st.fuel = 0 THEN [st EXCEPT !.sig = "err", !.err = Fuel]
@@ -718,7 +902,8 @@ ExecWhile(s, st, P) ==
 ExecFor(s, items, st, P) ==
   IF items = <<>> THEN st
   ELSE LET n == Len(st.env)
-           back == PopTo(ExecBlock(s.body, [st EXCEPT !.env = Append(@, (s.var :> items[1]))], P), n) IN
+           frame == IF s.k = "forun" THEN (s.vars[1] :> items[1].xs[1]) @@ (s.vars[2] :> items[1].xs[2]) ELSE (s.var :> items[1])
+           back == PopTo(ExecBlock(s.body, [st EXCEPT !.env = Append(@, frame)], P), n) IN
        IF back.sig = "brk" THEN [back EXCEPT !.sig = "n"]
        ELSE IF back.sig \in {"ret", "err"} THEN back
        ELSE ExecFor(s, Tail(items), [back EXCEPT !.sig = "n"], P)
@@ -738,7 +923,8 @@ ConstEnv(cs, env, P) ==
 Run(P0) ==
   LET P1 == [consts |-> P0.consts, fns |-> P0.fns, cenv |-> <<>>,
              types |-> IF "types" \in DOMAIN P0 THEN P0.types ELSE <<>>,
-             traits |-> IF "traits" \in DOMAIN P0 THEN P0.traits ELSE <<>>]
+             traits |-> IF "traits" \in DOMAIN P0 THEN P0.traits ELSE <<>>,
+             ord |-> IF "ord" \in DOMAIN P0 THEN P0.ord ELSE "fwd"]
       ce == ConstEnv(P1.consts, <<>>, P1) IN
   IF ~ce.ok THEN [out |-> <<>>, status |-> "consterr", err |-> ce.err]
   ELSE LET P == [P1 EXCEPT !.cenv = ce.env]
